@@ -225,7 +225,11 @@ func (d *decodingReader) decode(f frame.Frame) error {
 		pHdr := (*reflect.SliceHeader)(unsafe.Pointer(&p))
 		pHdr.Data = sh.Data
 		pHdr.Len = sh.Len
-		pHdr.Cap = sh.Cap
+		// Do not expose the frame's spare capacity to gob: a (damaged)
+		// column longer than the batch must not be decoded over rows
+		// beyond the batch, which may share memory with rows already
+		// delivered.
+		pHdr.Cap = sh.Len
 		v := reflect.NewAt(reflect.SliceOf(f.Out(col)), unsafe.Pointer(pHdr))
 		err := d.dec.DecodeValue(v)
 		if err != nil {
